@@ -91,6 +91,20 @@ CLAIMED["C10"] = {
     "design": "5 C10",
 }
 
+CLAIMED["C19"] = {
+    "text": "Files.tla transcribes load_file/skip_bom including the std::ifstream state (short read sets failbit, seekg on a failed stream is "
+            "ignored, the pre-sized buffer stays zero) next to Content(bytes) = bytes minus one leading BOM, and TLC checks equality for all "
+            "9,331 files over 6 byte classes up to length 5 (the pinned stream handling is refuted); every such file is then written to disk and "
+            "eval_file(path) is compared with eval(content) in the real engine, as are 20 programs with 0/1/2 BOMs, CRLF, shebang and trailing "
+            "NULs. The use() part is a pure reference machine (search paths in order, evaluate once, mark after success, nested failure "
+            "propagates) whose per-step outcome and per-file evaluation counts, computed by TLC for seeded histories over random file systems, "
+            "are replayed step by step.",
+    "note": "Histories are drawn by a seeded Python generator and handed to TLC, which computes the expectations; file systems with "
+            "inclusion cycles are excluded (they recurse for ever in the engine by design: a file is marked used only after evaluation).",
+    "technique": "TLA+ refinement check of the transcribed loader (TLC) + replay of TLC-computed expectations for files and use() histories",
+    "design": "5 C19",
+}
+
 PENDING_REASON = "check not built yet in this session; planned (see DESIGN.md section 8)"
 
 ALL = [f"C{i:02d}" for i in range(1, 21)]
